@@ -205,7 +205,7 @@ func crashChainCase(t *testing.T, run *vh.Run, r *vh.Rand, c *Case, thorough boo
 				kinds = append(kinds, o.Kind)
 			}
 			run.Count("recorded_op_shapes", strings.Join(kinds, ","))
-			run.Add(fmt.Sprintf("COps %s %s %s\n  %s", vh.Str(target), vh.Str(tmp), coqBytes(writtenBytes(seg)), coqOps(seg)), one, true)
+			addCase(run, fmt.Sprintf("COps %s %s %s\n  %s", vh.Str(target), vh.Str(tmp), coqBytes(writtenBytes(seg)), coqOps(seg)), one, true)
 		}
 		var fl []string
 		for _, n := range names {
@@ -215,7 +215,7 @@ func crashChainCase(t *testing.T, run *vh.Run, r *vh.Rand, c *Case, thorough boo
 		if b.ferr == nil {
 			final = vh.Some(coqBytes(b.final))
 		}
-		run.Add(fmt.Sprintf("CSeq %s %s\n  %s\n  %s %s", vh.List(fl), vh.Str(target), coqOps(b.opsReal), final, coqBytes(written)), one, true)
+		addCase(run, fmt.Sprintf("CSeq %s %s\n  %s\n  %s %s", vh.List(fl), vh.Str(target), coqOps(b.opsReal), final, coqBytes(written)), one, true)
 		for cn, real := range b.real {
 			if cn != target {
 				if _, ok := files[real]; ok {
